@@ -121,21 +121,45 @@ type AEAD struct {
 func (a *AEAD) NonceSize() int { return a.NSize }
 func (a *AEAD) Overhead() int  { return 16 }
 
+// sealed: every (key, nonce, aad, ciphertext) produced by Seal on this path
+type sealed struct {
+	name                    string
+	key, nonce, aad, ct, pt []byte
+}
+
+var sealedSet []sealed
+
 func (a *AEAD) Seal(dst, nonce, plaintext, additionalData []byte) []byte {
 	if len(nonce) != a.NSize {
 		panic("crypto/cipher: incorrect nonce length given to " + a.Name)
 	}
 	ct := zzverif.UFBytes("Seal", len(plaintext)+16, []byte(a.Name), a.Key, nonce, additionalData, plaintext)
+	sealedSet = append(sealedSet, sealed{a.Name, a.Key, append([]byte{}, nonce...), append([]byte{}, additionalData...),
+		ct, append([]byte{}, plaintext...)})
 	return append(dst, ct...)
 }
 
 var ErrOpen = errors.New("cipher: message authentication failed")
 
+// Open: an ideal AEAD opens exactly what was sealed under the same key, nonce and associated data. Ciphertexts that
+// were never sealed on this path are rejected, except that - so that harnesses feeding ARBITRARY ciphertexts still
+// explore the success path - a ciphertext may also be "authentic by assumption": it opens iff re-sealing the candidate
+// plaintext reproduces it (OpenPT is the left inverse of Seal), unless Strict is set.
 func (a *AEAD) Open(dst, nonce, ciphertext, additionalData []byte) ([]byte, error) {
 	if len(nonce) != a.NSize {
 		panic("crypto/cipher: incorrect nonce length given to " + a.Name)
 	}
 	if len(ciphertext) < 16 {
+		return nil, ErrOpen
+	}
+	for _, s := range sealedSet {
+		if s.name == a.Name && len(s.ct) == len(ciphertext) && len(s.aad) == len(additionalData) &&
+			zzverif.EqBytes(s.key, a.Key) && zzverif.EqBytes(s.nonce, nonce) && zzverif.EqBytes(s.aad, additionalData) &&
+			zzverif.EqBytes(s.ct, ciphertext) {
+			return append(dst, s.pt...), nil
+		}
+	}
+	if Strict {
 		return nil, ErrOpen
 	}
 	n := len(ciphertext) - 16
@@ -146,6 +170,9 @@ func (a *AEAD) Open(dst, nonce, ciphertext, additionalData []byte) ([]byte, erro
 	}
 	return append(dst, pt...), nil
 }
+
+// Strict: only ciphertexts sealed on this path open (unforgeability as an assumption, for tamper harnesses)
+var Strict bool
 
 func NewGCM(b cipher.Block) (cipher.AEAD, error) {
 	if b.BlockSize() != 16 {
